@@ -696,7 +696,7 @@ func init() {
 			"ha.HASyncer standby side (standbyLoop, performFullSync, connectToStream, handleSSEData, waitReconnect back-off)", "ha.InMemorySessionStore",
 			"net/http.Client (timeouts, body wrappers), http.ServeMux routing, encoding/json"},
 		Stub:         []string{"TCP/HTTP transport and server (scn.vhNet runs the real handlers in scheduler tasks; no sockets, no net/http server)"},
-		Rule:         "cases: 6-32 add/update/delete/sleep ops over <=4 session ids on the active with stream cuts (between and inside flushes), lost or late full-sync/stream responses, partition (stall or reset) and heal, standby crash+restart, then a fault-free quiet period of 2*(back-off max + request timeout) + heartbeat; non-trivial = >=3 completed operations and (a fault fired or >2 context switches); distinct = distinct (case hash, schedule fingerprint)",
+		Rule:         "cases: 6-32 add/update/delete/sleep ops over <=4 session ids on the active with stream cuts (between and inside flushes), lost or late full-sync/stream responses, partition (stall or reset) and heal, half-open streams (the server side learns at its next flush or after a keepalive/reset delay), a refused put/delete of the standby's own store, a change pushed at the instant a stream attaches, stalled goroutines (stall_pm), standby crash+restart, then a fault-free quiet period of 2*(back-off max + request timeout) + heartbeat; non-trivial = >=3 completed operations and (a fault fired or >2 context switches); distinct = distinct (case hash, schedule fingerprint)",
 		QuickRuns:    8000,
 		ThoroughRuns: 300000,
 		Assumptions: []string{"a full synchronisation is complete when performFullSync has returned nil, observed as the standby issuing its stream request",
